@@ -17,6 +17,8 @@ use std::time::Instant;
 use crate::rt::{run_many, run_once, EnvParams, ExecResult, Kind, Order, Point, Request, Status};
 
 pub type Body = crate::rt::Body;
+/// (prefix, cost so far, sleep set at the branching node in unbounded mode)
+type Item = (Vec<Point>, usize, Option<Vec<(usize, renoir::verif::Op)>>);
 
 #[derive(Clone, Debug)]
 pub struct Fail {
@@ -54,6 +56,8 @@ pub struct Scenario {
     pub shards: usize,
     /// whether the input is "non-trivial" by the property's stated rule
     pub nontrivial: bool,
+    /// unbounded exploration with sleep sets instead of the deviation bound
+    pub unbounded: bool,
 }
 
 #[derive(Clone, Debug, serde::Serialize, serde::Deserialize)]
@@ -86,6 +90,9 @@ pub struct ScenarioReport {
     /// cases enumerated inside executions (E2 loop scenarios) and how many were non-trivial
     pub cases: usize,
     pub nontrivial_cases: usize,
+    /// unbounded mode: executions whose remaining choices were all asleep (pruned as redundant)
+    pub sleep_blocked: usize,
+    pub unbounded: bool,
 }
 
 pub fn hash_of<T: Hash>(t: &T) -> u64 {
@@ -138,7 +145,7 @@ struct Acc {
 impl Acc {
     /// Record one finished execution that was started from a prefix of length `plen` and cost
     /// `cost`; return its children (prefix, cost).
-    fn record(&mut self, r: ExecResult, plen: usize, cost: usize, order: Order) -> Vec<(Vec<Point>, usize)> {
+    fn record(&mut self, r: ExecResult, plen: usize, cost: usize, order: Order) -> Vec<Item> {
         let s = self.s.clone();
         self.rep.executions += 1;
         self.rep.steps += r.steps;
@@ -204,20 +211,60 @@ impl Acc {
                 }
             }
         }
-        let mut kids = vec![];
-        for i in plen..r.trace.len() {
-            let p = r.trace[i];
-            for alt in 1..p.n {
-                let q = Point {
-                    k: p.k,
-                    n: p.n,
-                    c: alt,
-                };
-                let c2 = cost + cost_of(&q, &s.params.free_kinds);
-                if c2 <= s.bound {
-                    let mut pre: Vec<Point> = r.trace[..i].to_vec();
-                    pre.push(q);
-                    kids.push((pre, c2));
+        let mut kids: Vec<Item> = vec![];
+        if s.unbounded {
+            if r.sleep_blocked_at.is_some() {
+                self.rep.sleep_blocked += 1;
+            }
+            let limit = r.sleep_blocked_at.unwrap_or(r.trace.len()).min(r.trace.len());
+            for i in plen..limit {
+                let p = r.trace[i];
+                let node = r.nodes.get(i).cloned().unwrap_or_default();
+                if p.k == Kind::Task && node.enabled.len() == p.n as usize {
+                    // siblings explored before a task stay asleep while it is explored
+                    let mut done = vec![node.enabled[p.c as usize]];
+                    for alt in 0..p.n {
+                        if alt == p.c {
+                            continue;
+                        }
+                        let (t, op) = node.enabled[alt as usize];
+                        if node.sleep.iter().any(|(x, _)| *x == t) {
+                            continue;
+                        }
+                        let mut pre: Vec<Point> = r.trace[..i].to_vec();
+                        pre.push(Point { k: p.k, n: p.n, c: alt });
+                        let mut sl = node.sleep.clone();
+                        sl.extend(done.iter().copied());
+                        kids.push((pre, 0, Some(sl)));
+                        done.push((t, op));
+                    }
+                } else {
+                    // data choices are never pruned
+                    for alt in 0..p.n {
+                        if alt == p.c {
+                            continue;
+                        }
+                        let mut pre: Vec<Point> = r.trace[..i].to_vec();
+                        pre.push(Point { k: p.k, n: p.n, c: alt });
+                        kids.push((pre, 0, Some(node.sleep.clone())));
+                    }
+                }
+            }
+        } else {
+            for i in plen..r.trace.len() {
+                let p = r.trace[i];
+                for alt in 1..p.n {
+                    let q = Point {
+                        k: p.k,
+                        n: p.n,
+                        c: alt,
+                    };
+                    let c2 = cost + cost_of(&q, &s.params.free_kinds);
+                    if c2 <= s.bound {
+                        let mut pre: Vec<Point> = r.trace[..i].to_vec();
+                        pre.push(q);
+                        kids.push((pre, c2, None));
+                    }
                 }
             }
         }
@@ -247,6 +294,7 @@ pub fn explore(s: &Scenario, shard: usize, shards: usize, deadline: Option<Insta
             bound: s.bound,
             orders: s.orders.len(),
             nontrivial: s.nontrivial,
+            unbounded: s.unbounded,
             ..Default::default()
         },
         obs: HashSet::new(),
@@ -275,7 +323,7 @@ pub fn explore(s: &Scenario, shard: usize, shards: usize, deadline: Option<Insta
         orders: Vec<Order>,
         next_order: usize,
         cur_order: Order,
-        stack: Vec<(Vec<Point>, usize)>,
+        stack: Vec<Item>,
         /// (prefix length, cost, is root) of the execution in flight
         inflight: Option<(usize, usize, bool)>,
     }
@@ -333,7 +381,7 @@ pub fn explore(s: &Scenario, shard: usize, shards: usize, deadline: Option<Insta
         if acc.stop {
             return None;
         }
-        if let Some((prefix, cost)) = d.stack.pop() {
+        if let Some((prefix, cost, sleep)) = d.stack.pop() {
             d.inflight = Some((prefix.len(), cost, false));
             let order = d.cur_order;
             return Some(Request {
@@ -341,6 +389,7 @@ pub fn explore(s: &Scenario, shard: usize, shards: usize, deadline: Option<Insta
                 order,
                 params: acc.s.params.clone(),
                 body: acc.s.body.clone(),
+                sleep,
             });
         }
         if d.next_order < d.orders.len() {
@@ -353,6 +402,7 @@ pub fn explore(s: &Scenario, shard: usize, shards: usize, deadline: Option<Insta
                 order,
                 params: acc.s.params.clone(),
                 body: acc.s.body.clone(),
+                sleep: if acc.s.unbounded { Some(vec![]) } else { None },
             });
         }
         None
